@@ -136,7 +136,14 @@ def regenerate():
     if rc != 0:
         return False, "gotrans failed:\n" + out
     changed = write_if_changed(os.path.join(COQ, "Gen", "Generated.v"), out)
-    return True, "Generated.v %s" % ("rewritten" if changed else "unchanged")
+    # the case mappings of the unicode package of the toolchain that builds the library (printed by the harness binary)
+    note = ""
+    if os.path.exists(os.path.join(BUILD, "harness")):
+        rc2, out2 = run([os.path.join(BUILD, "harness"), "-casetable"], timeout=120)
+        if rc2 != 0 or "case_upper_table" not in out2:
+            return False, "harness -casetable failed:\n" + out2[-2000:]
+        note = ", CaseTable.v %s" % ("rewritten" if write_if_changed(os.path.join(COQ, "Gen", "CaseTable.v"), out2) else "unchanged")
+    return True, "Generated.v %s%s" % ("rewritten" if changed else "unchanged", note)
 
 
 def coq_make(targets, timeout=3000):
